@@ -357,10 +357,19 @@ func (w *world) checkConservation(final bool) {
 				return
 			}
 			if pend[n] != 0 && recordable(n) {
+				// (the process that holds the amount must be the one whose file is open)
 				for _, p := range w.procs {
-					if p.fileOpen() {
-						w.fail("nothing-pending", "counter %q: the counter file is open and all calls have returned, yet %d remain in memory (file has %d of %d)", short(n), pend[n], pers[n], w.begun[n])
-						return
+					if !p.fileOpen() {
+						continue
+					}
+					for _, cn := range p.allCounters() {
+						if cn.Name() != n {
+							continue
+						}
+						if _, _, _, extra, _ := cn.VerifState(); extra != 0 {
+							w.fail("nothing-pending", "counter %q: the counter file is open and all calls have returned, yet %d remain in memory (file has %d of %d)", short(n), pend[n], pers[n], w.begun[n])
+							return
+						}
 					}
 				}
 			}
